@@ -456,7 +456,11 @@ static int sim_unlock(const void* m) {
     State& g = *G;
     Task* me = g.tasks[g.cur];
     SimMutex& sm = mtx(m);
-    if (sm.owner != me->id) { log_event("unlock-not-owner", sm.id); return EPERM; }
+    if (sm.owner != me->id) {
+        // undefined behaviour per POSIX; a default (non error-checking) mutex is released although another thread owns it
+        log_event("unlock-not-owner", sm.id); g.st.unlock_not_owner++;
+        if (sm.owner == -1) return 0;
+    }
     if (g.sync_obs) g.sync_obs(me->id, (uint64_t)(uintptr_t)m, 1);
     sm.owner = -1;
     for (Task* t : g.tasks) if (t->st == T_BLOCKED_MUTEX && t->wait_obj == m) t->st = T_RUNNABLE;
@@ -621,9 +625,11 @@ int __wrap_clock_gettime(clockid_t id, struct timespec* ts) {
     if (!simulating()) return __real_clock_gettime(id, ts);
     int res = 0;
     if (sim_clock_hook(id, ts, &res)) return res;
-    int64_t base = (id == CLOCK_REALTIME) ? G->cfg.epoch_real_ns : G->cfg.epoch_mono_ns;
-    if (id != CLOCK_REALTIME && id != CLOCK_MONOTONIC && id != CLOCK_PROCESS_CPUTIME_ID && id != CLOCK_THREAD_CPUTIME_ID) { errno = EINVAL; return -1; }
+    // Linux clock ids: 0 REALTIME, 1 MONOTONIC, 2/3 CPU time, 4 MONOTONIC_RAW, 5 REALTIME_COARSE, 6 MONOTONIC_COARSE, 7 BOOTTIME
+    if ((int)id < 0 || (int)id > 7) { errno = EINVAL; return -1; }
+    int64_t base = (id == CLOCK_REALTIME || id == 5) ? G->cfg.epoch_real_ns : G->cfg.epoch_mono_ns;
     int64_t v = base + G->now;
+    if (id == 5 || id == 6) v = v / 4000000 * 4000000;      // coarse clocks only advance on (4 ms) ticks, i.e. lag the precise clock
     ts->tv_sec = (time_t)(v / 1000000000); ts->tv_nsec = (long)(v % 1000000000);
     log_event("clock_gettime", (uint64_t)id, (uint64_t)v);
     G->now += 1; // time moves with every observation
@@ -631,8 +637,8 @@ int __wrap_clock_gettime(clockid_t id, struct timespec* ts) {
 }
 int __wrap_clock_getres(clockid_t id, struct timespec* ts) {
     if (!simulating()) return __real_clock_getres(id, ts);
-    if (id != CLOCK_REALTIME && id != CLOCK_MONOTONIC && id != CLOCK_PROCESS_CPUTIME_ID && id != CLOCK_THREAD_CPUTIME_ID) { errno = EINVAL; return -1; }
-    if (ts) { ts->tv_sec = 0; ts->tv_nsec = 1; }
+    if ((int)id < 0 || (int)id > 7) { errno = EINVAL; return -1; }
+    if (ts) { ts->tv_sec = 0; ts->tv_nsec = (id == 5 || id == 6) ? 4000000 : 1; }
     return 0;
 }
 time_t __wrap_time(time_t* t) {
